@@ -21,3 +21,10 @@ package server
 //@   flag termination
 //@   flag skip nil
 //@   requires #pubsub_has_sub: len(cmd.Args) >= 2 || len(cmd.Args) == 0 || (string(cmd.Args[0]) != "pubsub" && string(cmd.Args[0]) != "PUBSUB")
+
+// The connection pool hands out a client per address (created on demand); nothing else is visible.
+//@ func (c *Client) Get(addr string) *redis.Client
+//@   props C05
+//@   trusted
+//@   ensures #nonnil: result != nil
+//@   modifies nothing
